@@ -150,6 +150,12 @@ def main():
                 bad_axioms[t] = ax
             else:
                 discharged += 1
+    chk = None
+    if tier == "thorough" and pb["ok"] and not a.no_proof and pb.get("mode") in ("full build", None):
+        with C.BuildLock():
+            chk_ok, chk = C.run_coqchk(pid)
+        if not chk_ok:
+            bad_axioms["coqchk"] = [str(chk)]
     proof_ok = pb["ok"] and not bad_axioms and not audit and tr_ok and obligations > 0
 
     # ---- correspondence + oracle
@@ -233,7 +239,8 @@ def main():
         "coverage": {
             "obligations": max(obligations, 1), "discharged": discharged,
             "theorems": theorems,
-            "checker_cmd": "make -C coq Props/%s.vo  (coqc 8.16.1, full .vo build; Print Assumptions under every theorem)" % pid,
+            "checker_cmd": "make -C coq Props/%s.vo  (coqc 8.16.1, full .vo build; Print Assumptions under every theorem)%s"
+                           % (pid, "; coqchk -silent -o DNS.Props.%s" % pid if chk else ""),
             "trusted_base": P.trusted_base(),
             "assumptions_printed": {t: ("Closed under the global context" if ax == [] else ax)
                                     for t, ax in pb.get("assumptions", {}).items()},
@@ -247,6 +254,7 @@ def main():
             "exhaustive": P.exhaustive(tier),
             "coq_wall_s": round(pb.get("wall", 0), 1),
             "proof_mode": pb.get("mode"),
+            "coqchk": chk,
             "generated_definitions_in_dependency_cone": (pb.get("cone") or {}).get("deps"),
             "generated_definitions_differing_from_baseline": (pb.get("cone") or {}).get("changed", []),
         },
